@@ -1446,10 +1446,26 @@ phases by frame number mod 32, beam (writer, byte kind, before/after/margin, dt/
         for _ in 0..g.rng.below(20) {
             ops.push(Op::Wait(clocks_frame(m128)));
         }
-        ops.push(Op::WBlk(if bank == 7 { 0xC000 } else { 0x4000 }, 0, scr));
-        // the 48K run is long enough for an eight-bit frame counter to wrap twice
-        for _ in 0..(if !m128 { o.n(530, 1100) } else { o.n(50, 600) }) {
+        ops.push(Op::WBlk(if bank == 7 { 0xC000 } else { 0x4000 }, 0, scr.clone()));
+        if m128 {
+            // the other screen bank holds flashing cells too (its attributes are the inverse picture)
+            let other: Vec<u8> = scr.iter().enumerate().map(|(i, b)| if i >= 0x1800 { *b ^ 0x12 } else { !*b }).collect();
+            let other_bank = if bank == 7 { 5u8 } else { 7 };
+            ops.push(Op::Out(0x7FFD, other_bank | if bank == 7 { 0x08 } else { 0 }));
+            ops.push(Op::WBlk(0xC000, 0, other));
+            ops.push(Op::Out(0x7FFD, if bank == 7 { 0x08 | 7 } else { 5 }));
+        }
+        // the 48K run is long enough for an eight-bit frame counter to wrap twice; on the 128K the displayed bank is
+        // switched every 23 frames, so that a bank comes back after an odd and after an even number of flash changes
+        let nframes = if !m128 { o.n(530, 1100) } else { o.n(140, 600) };
+        let mut shown7 = bank == 7;
+        for f in 0..nframes {
             ops.push(Op::Frame);
+            if m128 && f % 23 == 22 {
+                shown7 = !shown7;
+                ops.push(Op::Out(0x7FFD, if shown7 { 0x08 | 7 } else { 5 }));
+                ops.push(Op::Frame);
+            }
         }
         cases.push((format!("flash m128={} bank={}", m128, bank), Case { m128, ops }, 1));
     }
